@@ -26,7 +26,7 @@
    K101-K113): whether an omitted tag is re-inferred at the same place, attribute rewriting other than quoting,
    character references in context, embedded content, template delimiters. *)
 From MVGen Require Import Tables_gen HtmlDefaults_gen.
-From MV Require Html.HtmlDefaults.
+From MV Require Html.HtmlDefaults Html.HtmlAttrLoop Html.HtmlAttrLoopProofs.
 From MV Require Import Base.MvBytes Base.Ws Xml.XmlModel Xml.XmlEscape Html.HtmlAttr Html.HtmlAttrProofs Html.HtmlWs Html.HtmlWsSpec Html.HtmlWsLemmas
   Html.HtmlWsProofs Html.HtmlWsWf Html.HtmlOpts.
 
@@ -95,3 +95,25 @@ Print Assumptions keep_doc_tags_honoured_start.
 Theorem default_attribute_rules_ok : HtmlDefaults.html_default_rules_ok = true /\ HtmlDefaults.html_default_rules_complete = true.
 Proof. vm_compute. split; reflexivity. Qed.
 Print Assumptions default_attribute_rules_ok.
+
+(* the attribute loop (Html/HtmlAttrLoop.v, ordinary attributes on ordinary elements; tied to html.Minify on 3,000 generated
+   start tags per run): an attribute is dropped only when it is empty (class / dir / id / name, action on form) or has a
+   default value by the regenerated rules; a written value is read back by the HTML tokenizer as the processed value *)
+Section AttrLoop.
+Import HtmlAttrLoop.
+Theorem attr_dropped_only_if : forall o tag a, attr_out o tag a = [] ->
+  known_tag tag = true /\
+  ((attr_value a = [] /\ empty_omitted tag (a_name a) = true) \/ default_dropped o tag (a_name a) (attr_value a) = true).
+Proof. exact HtmlAttrLoopProofs.attr_dropped_only_if. Qed.
+Theorem attr_written_reads_back : forall o tag a rest,
+  attr_value a <> [] -> is_boolean_attr (a_name a) = false -> attr_out o tag a <> [] ->
+  (a_quote a = 0 \/ a_quote a = 34 \/ a_quote a = 39) -> follows_ok rest ->
+  exists lit body, attr_out o tag a = [32] ++ a_name a ++ [61] ++ lit /\
+    html_attr_value (lit ++ rest) = Some (body, rest) /\ unref_quotes body = unref_quotes (attr_value a).
+Proof. exact HtmlAttrLoopProofs.attr_written_reads_back. Qed.
+Theorem boolean_attr_bare : forall o tag a, is_boolean_attr (a_name a) = true -> attr_out o tag a = [] \/ attr_out o tag a = [32] ++ a_name a.
+Proof. exact HtmlAttrLoopProofs.boolean_attr_bare. Qed.
+End AttrLoop.
+Print Assumptions attr_dropped_only_if.
+Print Assumptions attr_written_reads_back.
+Print Assumptions boolean_attr_bare.
